@@ -122,6 +122,10 @@ ob("addr.parse.ux.n110", "addr/addr.c", ["-DOP_PARSE_UX", '-DPROTO="ux"', "-DPFU
 ob("addr.make.uxf.n110", "addr/addr.c", ["-DOP_MAKE_UX", "-DNAMEMAX=110", '-DPROTO="uxf"', "-DPFUN=xcm_addr_parse_uxf", "-DMFUN=xcm_addr_make_uxf"], ["C12"],
    unwind=124, desc="xcm_addr_make_uxf with names up to 110 bytes, every capacity, round trip")
 ob("addr.proto.n8", "addr/addr.c", ["-DOP_PROTO", "-DNTAIL=8"], ["C12"], unwind=18, desc="xcm_addr_parse_proto on 8 arbitrary bytes, every capacity 0..10")
+ob("addr.conv", "addr/conv.c", ["-DOP_CONV"], ["C12"], unwind=6, inc=["libxcm/tp/common", "libxcm/core"],
+   desc="the eight GEN_ADDR_CONV rewrites (btcp<->tcp, btcp<->btls, btls<->tls, utls<->tls) over parser/formatter mocks: source transport's parser, target transport's formatter, host/port/buffer/capacity unchanged, failure of either is failure with its errno (no truncated success)")
+ob("addr.compat", "addr/conv.c", ["-DOP_COMPAT"], ["C12"], unwind=6, inc=["libxcm/tp/common", "libxcm/core"],
+   desc="xcm_addr_compat.c: <proto>6_parse/_parse/6_make and the UX wrappers delegate unchanged; IP-only variants refuse names, IPv4-only variants refuse IPv6, with EINVAL")
 PROPERTY_META["C12"] = {
     "jobs_thorough": 5,
     "prechecks": [{"name": "libc_str models vs glibc (strtol, inet_pton/ntop, snprintf, isspace) and vs the repository's xcm_dns_is_valid_name",
